@@ -88,6 +88,16 @@ Theorem C15_load_asset_atomic : forall md apath name o a c a' c' e,
   load_asset B enc dec md apath name o a c = Ok (a', c', Some e) -> a' = a.
 Proof. exact (load_asset_atomic B enc dec). Qed.
 
+(** ... and when it registers an MPD (scan or write mode), every representation the MPD lists is
+    loaded in the asset and nothing loaded before is lost: no registered MPD refers to a missing
+    representation (the nil dereference in LiveMPD of the former partial assets). *)
+Theorem C15_registered_mpd_complete : forall md apath name sets a c a' c',
+  use_cache md = false ->
+  load_asset B enc dec md apath name (MOk sets) a c = Ok (a', c', None) ->
+  In name (a_mpds a') /\ keys_kept a a' /\
+  forall s b m, In s sets -> In (b, m) (as_reps s) -> lookup (m_id m) (a_reps a') <> None.
+Proof. exact (load_asset_complete B enc dec). Qed.
+
 (** ... which is the hypothesis [wf_loop] of the timeline theorems (C01, C02, C04 ...): the loop
     duration of the served reference table is exactly LoopDurMS milliseconds. *)
 Theorem C15_admission_wf_loop : forall md l c A c' p a,
@@ -215,6 +225,7 @@ Print Assumptions C15_contiguous_number_served.
 Print Assumptions C15_contiguous_time.
 Print Assumptions C15_contiguous_served.
 Print Assumptions C15_load_asset_atomic.
+Print Assumptions C15_registered_mpd_complete.
 Print Assumptions C15_contiguous_time_gap_loaded.
 Print Assumptions C15_time_gap_left_out.
 Print Assumptions C15_unreadable_file_harmless.
